@@ -341,6 +341,32 @@ def inline_new_temporaries(f, ent):
     back into their uses before any rule looks at the function.  (Loads from buffers, calls with effects and anything reassigned are left alone.)"""
     known = set(name for kind, name in ent if kind == 'd')
     written_ids, written_paths = _written_things(f)
+    # a loop counter is only written by the increment of its own `for`: inside the body it is as good as a constant
+    only_inc = set()
+    inc_writes = {}
+    for x in walk(f['body']):
+        if x['k'] == 'For' and (is_node(x.get('inc')) or is_node(x.get('init'))):
+            for y in [z for part in (x.get('inc'), x.get('init')) if is_node(part) for z in walk(part)]:
+                t_ = None
+                if y['k'] in ('Assign', 'CAssign'):
+                    t_ = strip_all(y['l'])
+                elif y['k'] == 'Un' and ('++' in y.get('op', '') or '--' in y.get('op', '')):
+                    t_ = strip_all(y['e'])
+                if t_ is not None and t_['k'] == 'Ref' and t_.get('id') is not None:
+                    inc_writes[t_['id']] = inc_writes.get(t_['id'], 0) + 1
+    tot_writes = {}
+    for x in walk(f['body']):
+        t_ = None
+        if x['k'] in ('Assign', 'CAssign'):
+            t_ = strip_all(x['l'])
+        elif x['k'] == 'Un' and ('++' in x.get('op', '') or '--' in x.get('op', '')):
+            t_ = strip_all(x['e'])
+        if t_ is not None and t_['k'] == 'Ref' and t_.get('id') is not None:
+            tot_writes[t_['id']] = tot_writes.get(t_['id'], 0) + 1
+    for i_, n_ in inc_writes.items():
+        if tot_writes.get(i_) == n_:
+            only_inc.add(i_)
+    written_ids = written_ids - only_inc
     changed = False
     for _round in range(4):
         repl = {}
@@ -378,10 +404,100 @@ def inline_new_temporaries(f, ent):
     return changed
 
 
+_PLOOPS = [None]
+
+
+def pinned_loops():
+    if _PLOOPS[0] is None:
+        try:
+            with open(os.path.join(os.path.dirname(PINNED_FILE), 'pinned_loops.json')) as fh:
+                _PLOOPS[0] = json.load(fh)
+        except (OSError, ValueError):
+            _PLOOPS[0] = {}
+    return _PLOOPS[0]
+
+
+def _writes_var(n, vid):
+    n = strip_all(n)
+    if n['k'] == 'Un' and ('++' in n.get('op', '') or '--' in n.get('op', '')):
+        t = strip_all(n['e'])
+        return t['k'] == 'Ref' and t.get('id') == vid
+    if n['k'] in ('CAssign', 'Assign'):
+        t = strip_all(n['l'])
+        return t['k'] == 'Ref' and t.get('id') == vid
+    return False
+
+
+def canonicalise_loops(f, config):
+    """`for (init; c; inc) body` and `init; while (c) { body; inc; }` are the same loop.  Where the sequence of loop forms of a function differs from the
+    pinned tree only in that respect, the loops are rewritten to the pinned form before any rule looks at them."""
+    want = pinned_loops().get(config + '|' + fkey(f))
+    if not want:
+        return
+    have = [x for x in walk(f['body']) if x['k'] in ('For', 'While', 'Do')]
+    if len(have) != len(want) or [x['k'] for x in have] == want:
+        return
+    todo = {id(x): w for x, w in zip(have, want) if x['k'] != w}
+
+    def rewrite(comp):
+        if not is_node(comp):
+            return
+        if comp['k'] == 'Compound':
+            out = []
+            for st in comp['s']:
+                w = todo.get(id(st))
+                if w == 'For' and st['k'] == 'While':
+                    body = st['b']['s'] if st['b']['k'] == 'Compound' else [st['b']]
+                    cvars = [y.get('id') for y in walk(st['c']) if y['k'] == 'Ref' and y.get('id') is not None]
+                    last = body[-1] if body else None
+                    prev = out[-1] if out else None
+                    vid = None
+                    if last is not None:
+                        for v_ in cvars:
+                            if _writes_var(last, v_):
+                                vid = v_
+                    ok = vid is not None and not any(y['k'] == 'Continue' for y in walk(st['b']))
+                    init = None
+                    if ok and prev is not None:
+                        if prev['k'] == 'Decl' and len(prev['d']) == 1 and prev['d'][0].get('id') == vid and 'init' in prev['d'][0]:
+                            init = prev
+                        elif strip_all(prev)['k'] == 'Assign' and _writes_var(prev, vid):
+                            init = prev
+                    if ok:
+                        if init is not None:
+                            out.pop()
+                        new = {'k': 'For', 'ln': st.get('ln'), 'init': init, 'c': st['c'], 'inc': last, 'b': {'k': 'Compound', 'ln': st['b'].get('ln'), 's': body[:-1]}}
+                        if init is None:
+                            del new['init']
+                        out.append(new)
+                        rewrite(new['b'])
+                        continue
+                if w == 'While' and st['k'] == 'For' and not any(y['k'] == 'Continue' for y in walk(st['b'])):
+                    body = st['b']['s'] if st['b']['k'] == 'Compound' else [st['b']]
+                    if is_node(st.get('init')):
+                        out.append(st['init'])
+                    nb = list(body) + ([st['inc']] if is_node(st.get('inc')) else [])
+                    new = {'k': 'While', 'ln': st.get('ln'), 'c': st.get('c') or {'k': 'Int', 'v': 1, 'ty': 'int'}, 'b': {'k': 'Compound', 'ln': st['b'].get('ln'), 's': nb}}
+                    out.append(new)
+                    rewrite(new['b'])
+                    continue
+                out.append(st)
+                rewrite(st)
+            comp['s'] = out
+            return
+        for c in children(comp):
+            rewrite(c)
+    rewrite(f['body'])
+
+
 def canonicalise_locals(f, pinned, config=''):
     if f.get('_canon') or f.get('body') is None:
         return
     f['_canon'] = True
+    try:
+        canonicalise_loops(f, config)
+    except RecursionError:
+        pass
     ent = pinned.get(config + '|' + fkey(f))
     if ent is None:
         ent = pinned.get(fkey(f))
@@ -397,9 +513,14 @@ def canonicalise_locals(f, pinned, config=''):
     if len(decls) != len(ent) or [k for k, _ in decls] != [e[0] for e in ent]:
         return        # the function changed shape: keep its own names (rules that need a role find it structurally or give up with exit 2)
     ren = {}
+    pinned_set = set(name for _k, name in ent)
     for (kind, d), (k2, name) in zip(decls, ent):
         if d.get('name') != name and d.get('id') is not None:
+            if d.get('name') in pinned_set:
+                return    # same identifiers in a different order (a declaration was moved): nothing was renamed, leave the names alone
             ren[d['id']] = name
+    for (kind, d), (k2, name) in zip(decls, ent):
+        if d.get('id') in ren:
             d['name'] = name
     if not ren:
         return
